@@ -2,6 +2,7 @@ package t_net
 
 import (
 	"fmt"
+	"os"
 	"testing"
 
 	"github.com/filecoin-project/go-f3/gpbft"
@@ -37,9 +38,9 @@ type runParams struct {
 
 func maxSteps() int {
 	if vev.Thorough() {
-		return vev.IntEnv("VERIF_NET_STEPS", 1500)
+		return vev.IntEnv("VERIF_NET_STEPS", 2000)
 	}
-	return vev.IntEnv("VERIF_NET_STEPS", 350)
+	return vev.IntEnv("VERIF_NET_STEPS", 700)
 }
 
 func maxMembers() int {
@@ -58,6 +59,9 @@ func runWorld(t *rapid.T, prop string) {
 		gen.MaxPathLen = 127
 	}
 	profile := rapid.SampledFrom(vnet.Profiles).Draw(t, "profile")
+	if forced := os.Getenv("VERIF_PROFILE"); forced != "" {
+		profile = forced // development aid only
+	}
 	if unanimous {
 		profile = "near-sync"
 	}
@@ -66,12 +70,12 @@ func runWorld(t *rapid.T, prop string) {
 		gen.TwoFaced = true
 		gen.MinPathLen = 1
 	}
-	if profile == "gate" || profile == "laggard" || profile == "hijack" {
+	if profile == "gate" || profile == "laggard" || profile == "hijack" || profile == "rotlag" {
 		// the gate schedule splits proposals best when the inputs themselves agree
 		gen.MinPathLen = 1
 		gen.Unanimous = rapid.Bool().Draw(t, "gateunanimous")
 	}
-	if profile == "hijack" {
+	if profile == "hijack" || profile == "rotlag" {
 		gen.ForceByzIfAble = true
 	}
 	cfg := vnet.GenConfig(t, gen)
